@@ -265,6 +265,23 @@ def run(ctx):
             flagged.add(k)
             ctx.cov["monitor_failures"] += 1
             ctx.violation(f"C06|call-catch|{bad[0]}", bad[1], {"scenario": sc})
+    # exactly once over the whole history (theorem `caught_at_most_once`): whatever errors were raised, by the client or by the flow itself,
+    # before and after reloads, a task instance is revived by its catch at most once in a run
+    for k, (sc, res) in enumerate(zip(scs, results)):
+        if k in flagged:
+            continue
+        ctx.cov["evaluations"] += 1
+        nrev = {}
+        for _, o in obs_of(res, {"tr"}):
+            if o.get("old") == "error" and o.get("new") == "running":
+                key = (o.get("pid"), o["tid"])
+                nrev[key] = nrev.get(key, 0) + 1
+        stats["tasks_revived_by_catch"] = stats.get("tasks_revived_by_catch", 0) + len(nrev)
+        twice = sorted(key for key, c in nrev.items() if c > 1)
+        if twice:
+            flagged.add(k)
+            ctx.cov["monitor_failures"] += 1
+            ctx.violation("C06|caught-twice", f"task(s) {twice} took an error with a catch more than once ({[nrev[x] for x in twice]} times)", {"scenario": sc, "tasks": twice})
     # every step of a catch that took an error runs exactly once by the end of the run (everything was answered)
     for k, ids in pending_catch.items():
         if k in flagged:
@@ -310,7 +327,7 @@ def run(ctx):
     ctx.cov["rule"] = ("catches at act and step level, nested two deep, several codes, catch-all, empty catch, several catches with the same code; errors e1/e2/e3 raised at any open act, "
                        "repeatedly, with other acts open; non-trivial = an error that a catch takes, or that goes past at least one catch list that does not match; distinct by (model, op prefix)")
     ctx.cov["clauses_proved"] = ["first matching catch wins", "nearest open member with an unused matching catch takes the error; below marked, above untouched", "uncaught: all marked",
-                                 "once-flag", "non-matching catch is a no-op", "caught error is silent (K1 emit table)"]
+                                 "once-flag", "at most one catch per task over every history of errors (caught_at_most_once)", "a declared matching catch on an open chain takes the error (matching_catch_takes)", "non-matching catch is a no-op", "caught error is silent (K1 emit table)"]
     ctx.cov["clauses_not_proved"] = ["the catching task completes and its successor starts (operational model correspondence + C01/C03 monitors)"]
 
 
